@@ -325,7 +325,7 @@ def run_check(prop, tier, seed, jobs):
             if "harness_error" in r:
                 herrs.append("batch %s: %s %s" % (r.get("batch"),
                                                   r["harness_error"],
-                                                  r.get("tb", "")[-800:]))
+                                                  r.get("tb", "")[-3000:]))
                 continue
             agg["evals"] += r["evals"]
             agg["keys"].update(r["keys"])
